@@ -101,7 +101,7 @@ theorem obs_projectAxis {S T : FS} (k m : Nat) (h : Obs S T) : Obs (projectAxis 
         (projMsk_iff _ _ _ _ _).2 ⟨hh, hhm, hw, by simpa using hc⟩
       rw [this] at hm; exact absurd hm (by simp)
     rw [(hb _ (set_mem_box' S.shape k (m + 1) hh j hj' hhm)).2 hmf]
-  · rw [projW_zero_of_not_win _ _ _ _ hw]; simp
+  · rw [projW_zero_of_not_win _ _ _ _ (by omega) hw]; simp
 
 theorem obs_reorderCore {S T : FS} (axes : List Nat) (h : Obs S T) : Obs (reorderCore axes S) (reorderCore axes T) := by
   have hbox := h.box_eq
